@@ -321,17 +321,33 @@ var soupTokens = []string{"varint", "zigzag32", "zigzag64", "fixed32", "fixed64"
 
 func tagSoups(c *vh.Ctx) {
 	n := c.N(4000, 150000)
-	for i := 0; i < n && !c.Failed(); i++ {
+	type job struct{ tag, gk string }
+	var replay []job
+	for _, raw := range c.ReplayInputs() {
+		var ri struct {
+			Tag    string `json:"tag"`
+			GoKind string `json:"gokind"`
+		}
+		if jsonUnmarshal(raw, &ri) == nil && ri.Tag != "" && goTypes[ri.GoKind] != nil {
+			replay = append(replay, job{ri.Tag, ri.GoKind})
+		}
+	}
+	for i := -len(replay); i < n && !c.Failed(); i++ {
 		k := 1 + c.Rand.Intn(8)
-		var ts []string
-		for j := 0; j < k; j++ {
-			ts = append(ts, soupTokens[c.Rand.Intn(len(soupTokens))])
+		var s, gk string
+		if i < 0 {
+			s, gk, k = replay[i+len(replay)].tag, replay[i+len(replay)].gk, 8
+		} else {
+			var ts []string
+			for j := 0; j < k; j++ {
+				ts = append(ts, soupTokens[c.Rand.Intn(len(soupTokens))])
+			}
+			s = strings.Join(ts, ",")
+			if c.Rand.Intn(10) == 0 {
+				s += ","
+			}
+			gk = goKindNames[c.Rand.Intn(len(goKindNames))]
 		}
-		s := strings.Join(ts, ",")
-		if c.Rand.Intn(10) == 0 {
-			s += ","
-		}
-		gk := goKindNames[c.Rand.Intn(len(goKindNames))]
 		in := map[string]any{"tag": s, "gokind": gk}
 		func() {
 			defer c.Recover("tag.Unmarshal(soup)", in, "")
@@ -610,25 +626,46 @@ func legacyType(c *vh.Ctx, gens []*legacyGen, name string) {
 	if name != "Message" {
 		per = c.N(6, 150)
 	}
-	for it := 0; it < per && !c.Failed(); it++ {
-		// random content, generated through the reflection API of a random generation
-		var legacyVoices []*voice
-		for _, v := range voices {
-			if v.kind == "legacy" {
-				legacyVoices = append(legacyVoices, v)
+	// the neutral content is generated in dynamicpb (of a random generation's derived descriptor), never
+	// in one of the implementations under comparison
+	var dynVoices []*voice
+	for _, v := range voices {
+		if v.kind == "dynamic" {
+			dynVoices = append(dynVoices, v)
+		}
+	}
+	// replayed contents first
+	var replayTrees []*Tree
+	for _, raw := range c.ReplayInputs() {
+		var ri struct {
+			Type    string `json:"type"`
+			Content string `json:"content"`
+		}
+		if jsonUnmarshal(raw, &ri) == nil && ri.Type == name && ri.Content != "" {
+			if t, err := parseSnapFor(dynVoices[0].flat.Root, xfFor(dynVoices[0]), ri.Content); err == nil {
+				replayTrees = append(replayTrees, t)
 			}
 		}
-		src := legacyVoices[c.Rand.Intn(len(legacyVoices))]
-		var exts []protoreflect.ExtensionType
-		for _, xs := range src.flat.Exts {
-			exts = append(exts, xs...)
+	}
+	for it := -len(replayTrees); it < per && !c.Failed(); it++ {
+		var src *voice
+		var t *Tree
+		if it < 0 {
+			src, t = dynVoices[0], replayTrees[it+len(replayTrees)]
+		} else {
+			// random content
+			src = dynVoices[c.Rand.Intn(len(dynVoices))]
+			var exts []protoreflect.ExtensionType
+			for _, xs := range src.flat.Exts {
+				exts = append(exts, xs...)
+			}
+			if it%2 == 1 {
+				exts = nil // the struct-tag twin has its own full name: the generations' extensions do not apply to it
+			}
+			m0 := src.mk()
+			fill(c, m0, 0, Opts{MaxDepth: 2, NegZero: true, FieldProb: 3 + c.Rand.Intn(6)}, exts)
+			t = treeOf(m0)
 		}
-		if it%2 == 1 {
-			exts = nil // the struct-tag twin has its own full name: the generations' extensions do not apply to it
-		}
-		m0 := src.mk()
-		fill(c, m0, 0, Opts{MaxDepth: 2, NegZero: true, FieldProb: 3 + c.Rand.Intn(6)}, exts)
-		t := treeOf(m0)
 		snap := snapTree(t)
 		anyUnknown := treeHasUnknown(t)
 		topExt := hasTopLevel(src.flat.Root, t, func(tf *TField, _ protoreflect.FieldDescriptor) bool { return tf.Ext })
